@@ -116,6 +116,27 @@ func wrong(t types.Type) (string, string) {
 	return "", ""
 }
 
+// wrongs returns every replacement tried where a value of type t is expected: the untyped literal of wrong(t), a typed
+// non-constant operand of another type (package-level helper variables of the corpus) and, for integer types, a
+// constant of the right class that the type cannot represent.
+func wrongs(t types.Type) [][2]string {
+	w, d := wrong(t)
+	if w == "" {
+		return nil
+	}
+	out := [][2]string{{w, d}}
+	dst := strings.SplitN(d, "<-", 2)[0]
+	if b, ok := t.Underlying().(*types.Basic); ok && b.Info()&types.IsNumeric != 0 {
+		out = append(out, [2]string{"wrongS", dst + "<-string-var"})
+		if b.Info()&types.IsInteger != 0 {
+			out = append(out, [2]string{"2.5", dst + "<-2.5"})
+		}
+	} else {
+		out = append(out, [2]string{"wrongI", dst + "<-int-var"})
+	}
+	return out
+}
+
 // oor returns the smallest constant that overflows the small integer kind b.
 func oor(b *types.Basic) string {
 	switch b.Kind() {
@@ -176,7 +197,8 @@ func mutantsOf(base, src string) []mutant {
 					if t == nil {
 						continue
 					}
-					if w, d := wrong(t); w != "" {
+					for _, wd := range wrongs(t) {
+						w, d := wd[0], wd[1]
 						add("assign-type-mismatch", lhsKind(l)+":"+d, x.Rhs[i], w)
 					}
 					// out-of-range constant for small integer destinations
@@ -218,7 +240,8 @@ func mutantsOf(base, src string) []mutant {
 			if x.Type != nil && len(x.Values) == 1 && len(x.Names) == 1 {
 				t := typeOf(x.Type)
 				if t != nil {
-					if w, d := wrong(t); w != "" {
+					for _, wd := range wrongs(t) {
+						w, d := wd[0], wd[1]
 						add("assign-type-mismatch", "vardecl:"+d, x.Values[0], w)
 					}
 					if b, ok := t.Underlying().(*types.Basic); ok {
@@ -343,7 +366,8 @@ func mutantsOf(base, src string) []mutant {
 				if pt == nil {
 					continue
 				}
-				if w, d := wrong(pt); w != "" {
+				for _, wd := range wrongs(pt) {
+					w, d := wd[0], wd[1]
 					site := kind + "-arg:" + d
 					if sig.Variadic() && i >= np-1 {
 						site = kind + "-variadic-arg:" + d
@@ -371,7 +395,8 @@ func mutantsOf(base, src string) []mutant {
 			sig := funcStack[len(funcStack)-1]
 			if sig.Results().Len() == len(x.Results) {
 				for i, r := range x.Results {
-					if w, d := wrong(sig.Results().At(i).Type()); w != "" {
+					for _, wd := range wrongs(sig.Results().At(i).Type()) {
+						w, d := wd[0], wd[1]
 						add("return-type-mismatch", d, r, w)
 					}
 				}
@@ -417,7 +442,8 @@ func mutantsOf(base, src string) []mutant {
 					if kv, ok := x.Elts[0].(*ast.KeyValueExpr); ok {
 						add("composite-literal", "struct:unknown-field", kv.Key, "NoSuchField")
 						add("composite-literal", "struct:duplicate-field", x.Elts[len(x.Elts)-1], text(x.Elts[len(x.Elts)-1])+", "+text(kv))
-						if w, d := wrong(typeOf(kv.Value)); w != "" {
+						for _, wd := range wrongs(typeOf(kv.Value)) {
+							w, d := wd[0], wd[1]
 							add("composite-literal", "struct:field-type:"+d, kv.Value, w)
 						}
 						if len(x.Elts) >= 2 {
@@ -429,7 +455,8 @@ func mutantsOf(base, src string) []mutant {
 						if u.NumFields() >= 2 && len(x.Elts) == u.NumFields() {
 							addRange("composite-literal", "struct:too-few-values", x.Elts[len(x.Elts)-2].End(), last.End(), "")
 						}
-						if w, d := wrong(typeOf(x.Elts[0])); w != "" {
+						for _, wd := range wrongs(typeOf(x.Elts[0])) {
+							w, d := wd[0], wd[1]
 							add("composite-literal", "struct:positional-type:"+d, x.Elts[0], w)
 						}
 					}
@@ -442,7 +469,8 @@ func mutantsOf(base, src string) []mutant {
 							add("composite-literal", "array:too-many-elements", last, text(last)+", "+text(last))
 						}
 						add("composite-literal", "array:index-out-of-range", last, fmt.Sprintf("%d: %s", u.Len()+3, text(last)))
-						if w, d := wrong(u.Elem()); w != "" {
+						for _, wd := range wrongs(u.Elem()) {
+							w, d := wd[0], wd[1]
 							add("composite-literal", "array:element-type:"+d, x.Elts[0], w)
 						}
 					}
@@ -450,20 +478,43 @@ func mutantsOf(base, src string) []mutant {
 			case *types.Slice:
 				if len(x.Elts) > 0 {
 					if _, ok := x.Elts[0].(*ast.KeyValueExpr); !ok {
-						if w, d := wrong(u.Elem()); w != "" {
+						for _, wd := range wrongs(u.Elem()) {
+							w, d := wd[0], wd[1]
 							add("composite-literal", "slice:element-type:"+d, x.Elts[0], w)
 						}
 						add("composite-literal", "slice:negative-index", x.Elts[0], "-1: "+text(x.Elts[0]))
 					}
 				}
 			case *types.Map:
+				for ei, el := range x.Elts {
+					kvn, ok := el.(*ast.KeyValueExpr)
+					if !ok || ei == 0 {
+						continue
+					}
+					kc := "const-key"
+					if c.info.Types[kvn.Key].Value == nil {
+						kc = "nonconst-key"
+					}
+					for _, wd := range wrongs(u.Elem()) {
+						add("composite-literal", "map:value-type:"+wd[1]+":"+kc+":later-element", kvn.Value, wd[0])
+					}
+					for _, wd := range wrongs(u.Key()) {
+						add("composite-literal", "map:key-type:"+wd[1]+":"+kc+":later-element", kvn.Key, wd[0])
+					}
+				}
 				if len(x.Elts) > 0 {
 					if kv, ok := x.Elts[0].(*ast.KeyValueExpr); ok {
-						if w, d := wrong(u.Key()); w != "" {
+						for _, wd := range wrongs(u.Key()) {
+							w, d := wd[0], wd[1]
 							add("composite-literal", "map:key-type:"+d, kv.Key, w)
 						}
-						if w, d := wrong(u.Elem()); w != "" {
-							add("composite-literal", "map:value-type:"+d, kv.Value, w)
+						for _, wd := range wrongs(u.Elem()) {
+							w, d := wd[0], wd[1]
+							kc := "const-key"
+							if c.info.Types[kv.Key].Value == nil {
+								kc = "nonconst-key"
+							}
+							add("composite-literal", "map:value-type:"+d+":"+kc, kv.Value, w)
 						}
 						if c.info.Types[kv.Key].Value != nil {
 							add("composite-literal", "map:duplicate-key", x.Elts[len(x.Elts)-1], text(x.Elts[len(x.Elts)-1])+", "+text(kv))
@@ -484,7 +535,11 @@ func mutantsOf(base, src string) []mutant {
 					add("const-out-of-range", "far-operand:"+b.Name(), x.Y, "70000")
 				}
 			}
-			if w, d := wrong(lt); w != "" && c.info.Types[x.X].Value == nil {
+			for _, wd := range wrongs(lt) {
+				w, d := wd[0], wd[1]
+				if c.info.Types[x.X].Value != nil {
+					continue
+				}
 				switch x.Op {
 				case token.ADD, token.SUB, token.MUL, token.QUO, token.EQL, token.LSS, token.GTR, token.LAND, token.LOR, token.NEQ, token.LEQ, token.GEQ:
 					add("operand-type-mismatch", x.Op.String()+":"+d, x.Y, w)
@@ -522,7 +577,8 @@ func mutantsOf(base, src string) []mutant {
 				add("const-out-of-range", "array-index", x.Index, fmt.Sprint(at.Len()+2))
 			}
 			if mt, ok := typeOf(x.X).Underlying().(*types.Map); ok {
-				if w, d := wrong(mt.Key()); w != "" {
+				for _, wd := range wrongs(mt.Key()) {
+					w, d := wd[0], wd[1]
 					add("assign-type-mismatch", "map-index-key:"+d, x.Index, w)
 				}
 			}
